@@ -106,7 +106,37 @@ class CoreMixin:
         n = self.declare(fresh_name(prefix), {"V": "V", "B": "Bool", "I": "Int", "S": "String"}[sort])
         return Val(n, sort, kind=kind, cls=cls)
 
+    _aliases = None
+
+    def attr_alias(self, name):
+        """Transparent property getters (`return self._x`) are aliases of the attribute they return."""
+        if CoreMixin._aliases is None:
+            import inspect as _i
+            import textwrap
+            table = {}
+            bad = set()
+            for cls in set(self.spec_names.values()):
+                for k, d in vars(cls).items():
+                    if isinstance(d, property) and d.fget is not None:
+                        try:
+                            src = textwrap.dedent(_i.getsource(d.fget))
+                            fn = ast.parse(src).body[0]
+                            body = [s for s in fn.body if not (isinstance(s, ast.Expr) and isinstance(s.value, ast.Constant))]
+                            tgt = None
+                            if len(body) == 1 and isinstance(body[0], ast.Return) and isinstance(body[0].value, ast.Attribute) \
+                                    and isinstance(body[0].value.value, ast.Name) and body[0].value.value.id == fn.args.args[0].arg:
+                                tgt = body[0].value.attr
+                        except Exception:
+                            tgt = None
+                        if tgt is None or table.get(k, tgt) != tgt:
+                            bad.add(k)
+                        else:
+                            table[k] = tgt
+            CoreMixin._aliases = {k: v for k, v in table.items() if k not in bad}
+        return CoreMixin._aliases.get(name, name)
+
     def attr_fun(self, name):
+        name = self.attr_alias(name)
         return self.declare_fun("attr_" + name.replace("__", "dd_"), ["V"], "V")
 
     def ext_instance(self, a, b):
